@@ -1039,6 +1039,1173 @@ fn show(spec: &str) {
     }
 }
 
+// ================================================================================================
+// The context dimensions (SyltDetContext): histories, long histories, spellings of the main file, hash seeds.
+// Everything below mirrors a universe that is DEFINED in spec/SyltDetContext.tla; TLC re-derives every
+// recorded context from the spec (Trace_DetContext) and fails with a tool error when this file disagrees.
+
+#[derive(Clone, Debug, Serialize, Deserialize)]
+struct Prog {
+    id: usize,
+    name: String,
+    files: usize,
+    stdlibs: usize,
+    site: String,
+    collide: String,
+    err: String,
+    bracket: String,
+    depth: usize,
+    nostd: bool,
+    warm: bool,
+    expect: String,
+}
+
+/// (name, files, stdlibs, site, collide, err, bracket, depth, nostd, warm) - the rows of SyltDetContext!ProgTable
+const PROG_TABLE: &[(&str, usize, usize, &str, &str, &str, &str, usize, bool, bool)] = &[
+    ("ok-1", 1, 0, "main", "-", "ok", "-", 0, false, true),
+    ("ok-2", 2, 0, "helper", "-", "ok", "paren", 2, false, true),
+    ("ok-3", 3, 0, "helper", "-", "ok", "list", 3, false, true),
+    ("ok-std4", 1, 4, "main", "-", "ok", "call", 2, false, true),
+    ("ok-std2-2", 2, 2, "main", "-", "ok", "brace", 3, false, false),
+    ("ok-deep", 1, 0, "main", "-", "ok", "mixed", 6, false, false),
+    ("col-print-1", 1, 0, "main", "print", "collide", "-", 0, false, true),
+    ("col-print-2", 2, 0, "main", "print", "collide", "-", 0, false, false),
+    ("col-print-3h", 3, 0, "helper", "print", "collide", "-", 0, false, false),
+    ("col-map-1s", 1, 2, "main", "map", "collide", "-", 0, false, false),
+    ("col-map-2h", 2, 0, "helper", "map", "collide", "-", 0, false, false),
+    ("col-min-3s", 3, 4, "main", "min", "collide", "-", 0, false, false),
+    ("col-two-2", 2, 0, "main", "two", "collide", "-", 0, false, false),
+    ("syn-paren-1", 1, 0, "main", "-", "syntax", "paren", 1, false, false),
+    ("syn-paren-4", 1, 0, "main", "-", "syntax", "paren", 4, false, true),
+    ("syn-list-2h", 2, 0, "helper", "-", "syntax", "list", 2, false, false),
+    ("syn-list-6", 2, 0, "main", "-", "syntax", "list", 6, false, true),
+    ("syn-brace-2", 1, 0, "main", "-", "syntax", "brace", 2, false, false),
+    ("syn-call-3s", 1, 2, "main", "-", "syntax", "call", 3, false, false),
+    ("syn-mixed-5h", 3, 0, "helper", "-", "syntax", "mixed", 5, false, true),
+    ("res-paren-2", 1, 0, "main", "-", "resolve", "paren", 2, false, false),
+    ("res-list-3h", 3, 0, "helper", "-", "resolve", "list", 3, false, true),
+    ("typ-paren-1", 1, 0, "main", "-", "type", "paren", 1, false, false),
+    ("typ-brace-2s", 2, 2, "helper", "-", "type", "brace", 2, false, true),
+    ("imp-missing-2", 2, 0, "main", "-", "import", "-", 0, false, false),
+    ("n-ok-1", 1, 0, "main", "-", "ok", "-", 0, true, false),
+    ("n-ok-deep-2", 2, 0, "helper", "-", "ok", "mixed", 6, true, false),
+    ("n-syn-paren-1", 1, 0, "main", "-", "syntax", "paren", 1, true, false),
+    ("n-syn-list-3", 1, 0, "main", "-", "syntax", "list", 3, true, false),
+    ("n-syn-brace-2", 1, 0, "main", "-", "syntax", "brace", 2, true, false),
+    ("n-syn-mixed-4h", 2, 0, "helper", "-", "syntax", "mixed", 4, true, false),
+    ("n-res-paren-2", 1, 0, "main", "-", "resolve", "paren", 2, true, false),
+    ("n-typ-list-2", 1, 0, "main", "-", "type", "list", 2, true, false),
+    ("n-imp-missing", 1, 0, "main", "-", "import", "-", 0, true, false),
+];
+
+fn n_prog() -> usize {
+    PROG_TABLE.len()
+}
+
+fn prog(id: usize) -> Prog {
+    if id < 1 || id > n_prog() {
+        tool_error(&format!("program id {} outside the library", id));
+    }
+    let r = PROG_TABLE[id - 1];
+    Prog {
+        id,
+        name: r.0.into(),
+        files: r.1,
+        stdlibs: r.2,
+        site: r.3.into(),
+        collide: r.4.into(),
+        err: r.5.into(),
+        bracket: r.6.into(),
+        depth: r.7,
+        nostd: r.8,
+        warm: r.9,
+        expect: if r.5 == "ok" { "ok" } else { "err" }.into(),
+    }
+}
+
+const STD_IMPORTS: &[&str] =
+    &["from math use (angle)", "from list use (prepend)", "from common use split", "from unsafe use unsafe_force"];
+
+/// The bracket nest of a program: declarations it needs and the expression `levels deep around core`.
+fn nest(bracket: &str, depth: usize, core: &str) -> (String, String, bool) {
+    let mut decls = String::new();
+    let mut e = core.to_string();
+    let mut is_int = true;
+    match bracket {
+        "paren" => {
+            for _ in 0..depth {
+                e = format!("(1 + {})", e);
+            }
+        }
+        "list" => {
+            for _ in 0..depth {
+                e = format!("[{}]", e);
+            }
+            is_int = depth == 0;
+        }
+        "brace" => {
+            // W1 { v: W2 { v: .. Wd { v: core } } }
+            for l in (1..=depth).rev() {
+                let inner = if l == depth { "int".to_string() } else { format!("W{}", l + 1) };
+                decls.push_str(&format!("W{} :: blob {{ v: {} }}\n", l, inner));
+                e = format!("W{} {{ v: {} }}", l, e);
+            }
+            is_int = depth == 0;
+        }
+        "call" => {
+            decls.push_str("ident :: fn x: int -> int do\n    ret x\nend\n");
+            for _ in 0..depth {
+                e = format!("ident({})", e);
+            }
+        }
+        "mixed" => {
+            decls.push_str("ident :: fn x: int -> int do\n    ret x\nend\n");
+            // innermost level first: ( ), a list inside a tuple that is indexed, call, ( ), ...
+            for l in 0..depth {
+                e = match l % 3 {
+                    0 => format!("(1 + {})", e),
+                    1 => format!("([{}], 1)[1]", e),
+                    _ => format!("ident({})", e),
+                };
+            }
+        }
+        _ => {}
+    }
+    (decls, e, is_int)
+}
+
+fn render_prog(p: &Prog) -> Project {
+    let core = match p.err.as_str() {
+        "syntax" => "2 +",
+        "resolve" => "nope_q",
+        "type" => "1 + \"s\"",
+        _ => "2",
+    };
+    let (decls, expr, is_int) = nest(&p.bracket, p.depth, core);
+    let collide_defs = |name: &str| -> String {
+        let one = |n: &str| format!("{} :: fn x: int -> int do\n    ret x\nend\n", n);
+        match name {
+            "-" => String::new(),
+            "two" => format!("{}{}", one("print"), one("map")),
+            n => one(n),
+        }
+    };
+    let site_body = |s: &mut Src| {
+        if p.bracket != "-" {
+            s.l(&format!("    x := {}", expr));
+            if is_int && p.err != "syntax" {
+                s.l("    x + 1");
+            }
+        }
+    };
+    let nhelp = p.files - 1;
+    let mut files = Vec::new();
+    for k in 1..=nhelp {
+        let is_site = p.site == "helper" && k == nhelp;
+        let mut s = Src::new();
+        if is_site {
+            s.s.push_str(&collide_defs(&p.collide));
+            s.s.push_str(&decls);
+        }
+        s.l(&format!("one{} :: fn -> int do", k));
+        if is_site {
+            site_body(&mut s);
+        }
+        s.l(&format!("    ret {}", k));
+        s.l("end");
+        files.push((format!("h{}.sy", k), s.s.clone()));
+    }
+    let mut s = Src::new();
+    for k in 1..=nhelp {
+        s.l(&format!("use h{}", k));
+    }
+    if p.err == "import" {
+        s.l("use nofile");
+    }
+    for q in 0..p.stdlibs {
+        s.l(STD_IMPORTS[q]);
+    }
+    let main_site = p.site == "main";
+    if main_site {
+        s.s.push_str(&collide_defs(&p.collide));
+        s.s.push_str(&decls);
+    }
+    s.l("work :: fn -> int do");
+    if main_site {
+        site_body(&mut s);
+    }
+    s.l("    ret 0");
+    s.l("end");
+    s.l("start :: fn do");
+    s.l("    t := work()");
+    for k in 1..=nhelp {
+        s.l(&format!("    t = t + h{}.one{}()", k, k));
+    }
+    if !p.nostd && p.collide != "print" && p.collide != "two" {
+        s.l("    print(t)");
+    }
+    s.l("end");
+    files.push(("main.sy".to_string(), s.s.clone()));
+    multi(files)
+}
+
+fn warm_ids() -> Vec<usize> {
+    (1..=n_prog()).filter(|&i| PROG_TABLE[i - 1].9).collect()
+}
+
+fn n_shapes() -> usize {
+    2 + 3 * warm_ids().len()
+}
+
+/// SyltDetContext!HistScenario
+fn hist_scenario(t: usize, s: usize) -> Vec<usize> {
+    let w = warm_ids();
+    let nw = w.len();
+    let at = |k: usize| w[(k - 1) % nw];
+    if s == 1 {
+        vec![t]
+    } else if s == 2 {
+        vec![t, t, t]
+    } else if s <= 2 + nw {
+        vec![at(s - 2), t]
+    } else if s <= 2 + 2 * nw {
+        vec![at(s - 2 - nw), at(s - 1 - nw), t]
+    } else {
+        vec![at(s - 2 - 2 * nw), t, at(s + 1 - 2 * nw), t]
+    }
+}
+
+fn ids_where(f: &dyn Fn(&Prog) -> bool) -> Vec<usize> {
+    (1..=n_prog()).filter(|&i| f(&prog(i))).collect()
+}
+
+fn weave(a: &[usize], b: &[usize]) -> Vec<usize> {
+    let mut v = Vec::new();
+    for (q, &x) in a.iter().enumerate() {
+        v.push(x);
+        v.push(b[q % b.len()]);
+    }
+    v
+}
+
+const N_LONG: usize = 6;
+
+/// SyltDetContext!LongPattern
+fn long_pattern(s: usize) -> Vec<usize> {
+    let other = |e: &str| ["resolve", "type", "import", "collide"].contains(&e);
+    match s {
+        1 => ids_where(&|p| !p.nostd),
+        2 => weave(&ids_where(&|p| !p.nostd && p.err == "syntax"), &ids_where(&|p| !p.nostd && p.err == "ok")),
+        3 => weave(&ids_where(&|p| !p.nostd && other(&p.err)), &ids_where(&|p| !p.nostd && p.err == "ok")),
+        4 => ids_where(&|p| p.nostd),
+        5 => weave(&ids_where(&|p| p.nostd && p.err == "syntax"), &ids_where(&|p| p.nostd && p.err == "ok")),
+        _ => weave(
+            &ids_where(&|p| p.nostd && ["resolve", "type", "import"].contains(&p.err.as_str())),
+            &ids_where(&|p| p.nostd && p.err == "ok"),
+        ),
+    }
+}
+
+// ---- projects on disk -------------------------------------------------------------------------------------
+
+/// (name, cwd, arg) - SyltDetContext!Spellings; $S = scratch dir of the project, $P = $S/proj
+const SPELLINGS: &[(&str, &str, &str)] = &[
+    ("parent", "$S", "proj/main.sy"),
+    ("bare", "$P", "main.sy"),
+    ("dot", "$P", "./main.sy"),
+    ("parent-dot", "$S", "./proj/main.sy"),
+    ("sub-dotdot", "$P/w", "../main.sy"),
+    ("parent-dotdot", "$S", "proj/w/../main.sy"),
+    ("abs", "/", "$P/main.sy"),
+    ("abs-inside", "$P", "$P/main.sy"),
+    ("abs-dotdot", "$S", "$P/w/../main.sy"),
+];
+
+const N_DISK: usize = 64;
+
+#[derive(Clone, Debug, Serialize, Deserialize)]
+struct DiskCase {
+    idx: usize,
+    shape: usize,
+    subdepth: usize,
+    exports: usize,
+    err: usize,
+    expect: String,
+}
+
+fn disk_case(i: usize) -> DiskCase {
+    if i < 1 || i > N_DISK {
+        tool_error("disk project index out of range");
+    }
+    let m = i - 1;
+    let err = (m / 16) % 4;
+    DiskCase {
+        idx: i,
+        shape: m % 4,
+        subdepth: 1 + (m / 4) % 2,
+        exports: (m / 8) % 2,
+        err,
+        expect: if err == 0 { "ok" } else { "err" }.into(),
+    }
+}
+
+/// files relative to the project directory
+fn render_disk(c: &DiskCase) -> BTreeMap<String, String> {
+    let mut f = BTreeMap::new();
+    // the shared module: mutable state, so that two copies of it behave differently
+    let mut sh = Src::new();
+    sh.l("_count := 0");
+    sh.l("bump :: fn do\n    _count += 1\nend");
+    sh.l("count :: fn -> int do\n    ret _count\nend");
+    if c.err == 1 {
+        sh.l("broken :: fn -> int do\n    z: int = \"shared\"\n    ret z\nend");
+    }
+    f.insert("shared.sy".to_string(), sh.s.clone());
+    let subdir = if c.subdepth == 1 { "w".to_string() } else { "w/deep".to_string() };
+    // the file in the sub-folder
+    let mut u = Src::new();
+    match c.shape {
+        2 => u.l("from /shared use bump"),
+        3 => u.l("use /other").l("use /shared"),
+        _ => u.l("use /shared"),
+    };
+    if c.err == 3 {
+        u.l("use /gone");
+    }
+    u.l("click :: fn do");
+    match c.shape {
+        2 => u.l("    bump()"),
+        3 => u.l("    other.poke()").l("    shared.bump()"),
+        _ => u.l("    shared.bump()"),
+    };
+    if c.err == 2 {
+        u.l("    q := [1, (2 +), 3]");
+    }
+    u.l("end");
+    f.insert(format!("{}/user.sy", subdir), u.s.clone());
+    if c.shape == 3 {
+        f.insert("other.sy".to_string(), "use shared\npoke :: fn do\n    shared.bump()\nend\n".to_string());
+    }
+    if c.subdepth == 2 {
+        // keeps the folder w non-empty on its own level as well
+        f.insert("w/note.sy".to_string(), "note :: 1\n".to_string());
+    }
+    let mut m = Src::new();
+    match c.shape {
+        0 => m.l("use shared"),
+        2 => m.l("from shared use bump, count"),
+        _ => m.l("use /shared"),
+    };
+    let user_ns;
+    if c.exports == 1 {
+        let rel = if c.subdepth == 1 { "user" } else { "deep/user" };
+        f.insert("w/exports.sy".to_string(), format!("use {}\nclick :: user.click\n", rel));
+        m.l("use w/");
+        user_ns = "w";
+    } else {
+        m.l(&format!("use {}/user", subdir));
+        user_ns = "user";
+    }
+    m.l("start :: fn do");
+    if c.shape == 2 {
+        m.l("    bump()");
+    } else {
+        m.l("    shared.bump()");
+    }
+    m.l(&format!("    {}.click()", user_ns));
+    m.l(&format!("    {}.click()", user_ns));
+    let expected = if c.shape == 3 { 5 } else { 3 };
+    if c.shape == 2 {
+        m.l(&format!("    count() <=> {}", expected));
+        m.l("    print(count())");
+    } else {
+        m.l(&format!("    shared.count() <=> {}", expected));
+        m.l("    print(shared.count())");
+    }
+    m.l("end");
+    f.insert("main.sy".to_string(), m.s.clone());
+    f
+}
+
+/// Lexical normalisation of a path as a compiler spelled it: made absolute with `cwd`, `.` and `..` resolved,
+/// then written relative to the project directory `root` when it lies below it.
+fn norm_path(spelled: &str, cwd: &Path, root: &Path) -> String {
+    if spelled.starts_with("lib:") || spelled.is_empty() {
+        return spelled.to_string();
+    }
+    let p = Path::new(spelled);
+    let abs = if p.is_absolute() { p.to_path_buf() } else { cwd.join(p) };
+    let mut parts: Vec<std::ffi::OsString> = Vec::new();
+    for c in abs.components() {
+        match c {
+            std::path::Component::CurDir | std::path::Component::RootDir | std::path::Component::Prefix(_) => {}
+            std::path::Component::ParentDir => {
+                parts.pop();
+            }
+            std::path::Component::Normal(x) => parts.push(x.to_os_string()),
+        }
+    }
+    let mut n = std::path::PathBuf::from("/");
+    for x in parts {
+        n.push(x);
+    }
+    match n.strip_prefix(root) {
+        Ok(rel) => format!("<proj>/{}", rel.to_string_lossy()),
+        Err(_) => n.to_string_lossy().to_string(),
+    }
+}
+
+/// Text of an error with the colour codes removed and every word that names a .sy file normalised.
+fn norm_text(text: &str, cwd: &Path, root: &Path) -> String {
+    // strip ANSI colour sequences
+    let mut plain = String::with_capacity(text.len());
+    let mut it = text.chars().peekable();
+    while let Some(c) = it.next() {
+        if c == '\u{1b}' && it.peek() == Some(&'[') {
+            it.next();
+            while let Some(&d) = it.peek() {
+                it.next();
+                if d.is_ascii_alphabetic() {
+                    break;
+                }
+            }
+        } else {
+            plain.push(c);
+        }
+    }
+    let mut out = String::with_capacity(plain.len());
+    let mut word = String::new();
+    let flush = |word: &mut String, out: &mut String| {
+        if !word.is_empty() {
+            // a word may carry a trailing ":<line>"
+            let (path, tail) = match word.find(".sy") {
+                Some(i) if word[i + 3..].is_empty() || word[i + 3..].starts_with(':') => (&word[..i + 3], &word[i + 3..]),
+                _ => ("", word.as_str()),
+            };
+            if !path.is_empty() {
+                out.push_str(&norm_path(path, cwd, root));
+            }
+            out.push_str(tail);
+            word.clear();
+        }
+    };
+    for c in plain.chars() {
+        if c.is_whitespace() || c == '\'' || c == '"' {
+            flush(&mut word, &mut out);
+            out.push(c);
+        } else {
+            word.push(c);
+        }
+    }
+    flush(&mut word, &mut out);
+    out
+}
+
+/// The result with every file name written relative to the project directory (the property allows a compiler
+/// to spell file names as they were given; kinds, lines, columns, messages and the order are compared).
+fn normalise_result(r: &CompileResult, cwd: &Path, root: &Path) -> CompileResult {
+    match r {
+        CompileResult::Err { errors, bytes_written } => CompileResult::Err {
+            errors: errors
+                .iter()
+                .map(|e| {
+                    let mut e = e.clone();
+                    e.file = norm_path(&e.file, cwd, root);
+                    e.message = norm_text(&e.message, cwd, root);
+                    e.rendered = norm_text(&e.rendered, cwd, root);
+                    e
+                })
+                .collect(),
+            bytes_written: *bytes_written,
+        },
+        other => other.clone(),
+    }
+}
+
+/// Compile `arg` (spelled exactly as given) from the current directory with sylt's own file reader.
+fn disk_compile(arg: &str, no_std: bool) -> CompileResult {
+    vharness::project::quiet_panics();
+    let mut out: Vec<u8> = Vec::new();
+    let a = sylt::Args { args: vec![arg.to_string()], no_std, ..Default::default() };
+    let res = {
+        let out_ref: &mut dyn std::io::Write = &mut out;
+        std::panic::catch_unwind(std::panic::AssertUnwindSafe(|| {
+            sylt::compile_with_reader_to_writer(&a, sylt::read_file, out_ref)
+        }))
+    };
+    match res {
+        Ok(Ok(())) => CompileResult::Ok { lua: String::from_utf8_lossy(&out).to_string() },
+        Ok(Err(errs)) => {
+            CompileResult::Err { errors: errs.iter().map(vharness::project::err_info).collect(), bytes_written: out.len() }
+        }
+        Err(_) => CompileResult::Panic { message: "panic while compiling from disk".into(), bytes_written: out.len() },
+    }
+}
+
+#[derive(Serialize, Deserialize)]
+struct StepOut {
+    obs: Obs,
+    full: Option<Value>,
+}
+
+/// `c16 diskworker <arg> <project dir> <reference digest or ->`: one compilation in THIS process, from its cwd.
+fn diskworker(arg: &str, root: &str, reference: &str) {
+    let cwd = std::env::current_dir().unwrap_or_else(|e| tool_error(&format!("cwd: {}", e)));
+    let arg = arg.to_string();
+    let r = std::thread::Builder::new()
+        .stack_size(256 << 20)
+        .spawn(move || disk_compile(&arg, false))
+        .unwrap()
+        .join()
+        .unwrap_or_else(|_| tool_error("disk worker thread died"));
+    let n = normalise_result(&r, &cwd, Path::new(root));
+    let obs = observe(&n);
+    let full = if obs.digest != reference { Some(json!({"normalised": full_result(&n), "raw": full_result(&r)})) } else { None };
+    println!("{}", serde_json::to_string(&StepOut { obs, full }).unwrap());
+}
+
+// ---- sequences of compilations in one fresh process -----------------------------------------------------------
+
+#[derive(Serialize, Deserialize)]
+struct SeqJob {
+    progs: Vec<usize>,
+    /// digest of the fresh result of every program (by id), "" when not known yet
+    refs: BTreeMap<String, String>,
+}
+
+/// `c16 seqworker <job.json> <out.ndjson>`: ONE thread of this process compiles the programs one after the other.
+fn seqworker(job_path: &str, out_path: &str) {
+    let job: SeqJob = serde_json::from_str(
+        &std::fs::read_to_string(job_path).unwrap_or_else(|e| tool_error(&format!("{}: {}", job_path, e))),
+    )
+    .unwrap_or_else(|e| tool_error(&format!("{}: {}", job_path, e)));
+    let outs = std::thread::Builder::new()
+        .stack_size(512 << 20)
+        .spawn(move || {
+            let mut rendered: BTreeMap<usize, (Project, bool)> = BTreeMap::new();
+            let mut shipped: BTreeMap<usize, usize> = BTreeMap::new();
+            let mut outs = Vec::with_capacity(job.progs.len());
+            for &id in job.progs.iter() {
+                let (project, nostd) = rendered
+                    .entry(id)
+                    .or_insert_with(|| {
+                        let p = prog(id);
+                        (render_prog(&p), p.nostd)
+                    })
+                    .clone();
+                let (r, _) = vharness::project::compile_opts(
+                    &project,
+                    &vharness::project::CompileOpts { no_std: nostd, ..Default::default() },
+                );
+                let obs = observe(&r);
+                let reference = job.refs.get(&id.to_string()).cloned().unwrap_or_default();
+                // full results: everything when no reference is known, else the first two that differ from it
+                let n = shipped.entry(id).or_insert(0);
+                let full = if reference.is_empty() || (obs.digest != reference && *n < 2) {
+                    *n += 1;
+                    Some(full_result(&r))
+                } else {
+                    None
+                };
+                outs.push(StepOut { obs, full });
+            }
+            outs
+        })
+        .unwrap()
+        .join()
+        .unwrap_or_else(|_| tool_error("sequence worker thread died"));
+    write_ndjson(Path::new(out_path), &outs);
+}
+
+fn run_seq(scratch: &Path, tag: &str, progs: &[usize], refs: &BTreeMap<String, String>) -> Vec<StepOut> {
+    let exe = std::env::current_exe().unwrap_or_else(|e| tool_error(&format!("current_exe: {}", e)));
+    let job = scratch.join(format!("{}.job.json", tag));
+    let out = scratch.join(format!("{}.out.ndjson", tag));
+    std::fs::write(&job, serde_json::to_string(&SeqJob { progs: progs.to_vec(), refs: refs.clone() }).unwrap())
+        .unwrap_or_else(|e| tool_error(&format!("{}: {}", job.display(), e)));
+    let st = std::process::Command::new(exe)
+        .arg("seqworker")
+        .arg(&job)
+        .arg(&out)
+        .env("VERIF_SEED", format!("{}", seed()))
+        .stdout(std::process::Stdio::null())
+        .status()
+        .unwrap_or_else(|e| tool_error(&format!("cannot start a sequence worker: {}", e)));
+    if !st.success() {
+        tool_error(&format!("sequence worker {} exited with {:?}", tag, st.code()));
+    }
+    let outs: Vec<StepOut> = read_ndjson(&out);
+    if outs.len() != progs.len() {
+        tool_error(&format!("sequence worker {} returned {} of {} results", tag, outs.len(), progs.len()));
+    }
+    let _ = std::fs::remove_file(&job);
+    let _ = std::fs::remove_file(&out);
+    outs
+}
+
+// ---- equal-but-not-identical keys --------------------------------------------------------------------------------
+
+const SEED_FAMS: &[&str] =
+    &["dup-blob-field", "dup-enum-variant", "dup-import", "dup-param", "dup-case-arm", "dup-lit-field"];
+
+fn n_seed_cases() -> usize {
+    SEED_FAMS.len() * 4 * 2 * 3 * 3 * 2
+}
+
+#[derive(Clone, Debug, Serialize, Deserialize)]
+struct SeedCase {
+    idx: usize,
+    fam: String,
+    n: usize,
+    m: usize,
+    which: usize,
+    place: usize,
+    sub: usize,
+    dup: usize,
+    slots: Vec<usize>,
+}
+
+fn seed_case(i: usize) -> SeedCase {
+    if i < 1 || i > n_seed_cases() {
+        tool_error("seed case index out of range");
+    }
+    let mut x = i - 1;
+    let fam = SEED_FAMS[x % SEED_FAMS.len()];
+    x /= SEED_FAMS.len();
+    let n = 2 + x % 4;
+    x /= 4;
+    let m = 2 + x % 2;
+    x /= 2;
+    let which = x % 3;
+    x /= 3;
+    let place = x % 3;
+    x /= 3;
+    let sub = x % 2;
+    let d = match which {
+        0 => 0,
+        1 => n / 2,
+        _ => n - 1,
+    };
+    let base: Vec<usize> = (0..n).collect();
+    let extra: Vec<usize> = (0..m - 1).map(|_| d).collect();
+    let slots: Vec<usize> = match place {
+        0 => base[..=d].iter().chain(extra.iter()).chain(base[d + 1..].iter()).cloned().collect(),
+        1 => base.iter().chain(extra.iter()).cloned().collect(),
+        _ => extra.iter().chain(base.iter()).cloned().collect(),
+    };
+    SeedCase { idx: i, fam: fam.into(), n, m, which, place, sub, dup: d, slots }
+}
+
+fn render_seed(c: &SeedCase) -> Project {
+    // copy number of every slot (0 for the first occurrence of a member)
+    let mut seen_count = vec![0usize; c.n];
+    let copies: Vec<usize> = c
+        .slots
+        .iter()
+        .map(|&j| {
+            let k = seen_count[j];
+            seen_count[j] += 1;
+            k
+        })
+        .collect();
+    let vary = |j: usize, copy: usize| if c.sub == 1 { j + copy } else { j };
+    let mut s = Src::new();
+    let mut files: Vec<(String, String)> = Vec::new();
+    match c.fam.as_str() {
+        "dup-blob-field" => {
+            s.l("Rec :: blob {");
+            for (q, &j) in c.slots.iter().enumerate() {
+                s.l(&format!("    {}: {},", NAMES[j], ty(vary(j, copies[q]))));
+            }
+            s.l("}");
+            s.l("start :: fn do");
+            s.l(&format!("    r := {}", blob_lit("Rec", &(0..c.n).collect::<Vec<_>>(), &|j| val(j).to_string())));
+            s.l("end");
+        }
+        "dup-enum-variant" => {
+            s.l("Choice :: enum");
+            for (q, &j) in c.slots.iter().enumerate() {
+                let v = vary(j, copies[q]);
+                if v % 2 == 0 {
+                    s.l(&format!("    {} {}", VNAMES[j], ty(v / 2)));
+                } else {
+                    s.l(&format!("    {}", VNAMES[j]));
+                }
+            }
+            s.l("end");
+            s.l("start :: fn do");
+            s.l("    q := 1");
+            s.l("end");
+        }
+        "dup-import" => {
+            for j in 0..c.n {
+                files.push((format!("mod{}.sy", j), format!("get{} :: fn -> int do\n    ret {}\nend\nval{} :: {}\n", j, j, j, j)));
+            }
+            for (q, &j) in c.slots.iter().enumerate() {
+                if c.sub == 0 {
+                    s.l(&format!("use mod{}", j));
+                } else if copies[q] % 2 == 0 {
+                    s.l(&format!("from mod{} use get{}", j, j));
+                } else {
+                    s.l(&format!("from mod{} use (get{}, val{})", j, j, j));
+                }
+            }
+            s.l("start :: fn do");
+            if c.sub == 0 {
+                s.l("    q := mod0.get0()");
+            } else {
+                s.l("    q := get0()");
+            }
+            s.l("end");
+        }
+        "dup-param" => {
+            let params: Vec<String> =
+                c.slots.iter().enumerate().map(|(q, &j)| format!("{}: {}", NAMES[j], ty(vary(j, copies[q])))).collect();
+            s.l(&format!("combine :: fn {} -> int do", params.join(", ")));
+            s.l("    ret 1");
+            s.l("end");
+            s.l("start :: fn do");
+            s.l("    q := 1");
+            s.l("end");
+        }
+        "dup-case-arm" => {
+            s.l("Choice :: enum");
+            for j in 0..c.n {
+                if j % 2 == 0 {
+                    s.l(&format!("    {} {}", VNAMES[j], ty(j / 2)));
+                } else {
+                    s.l(&format!("    {}", VNAMES[j]));
+                }
+            }
+            s.l("end");
+            s.l("describe :: fn c: Choice -> int do");
+            s.l("    ret case c do");
+            for (q, &j) in c.slots.iter().enumerate() {
+                let value = 10 + vary(j, copies[q]);
+                if j % 2 == 0 {
+                    s.l(&format!("        {} x -> {} end", VNAMES[j], value));
+                } else {
+                    s.l(&format!("        {} -> {} end", VNAMES[j], value));
+                }
+            }
+            if c.sub == 1 {
+                s.l("        else 99 end");
+            }
+            s.l("    end");
+            s.l("end");
+            s.l("start :: fn do");
+            s.l(&format!("    q := describe(Choice.{})", VNAMES[1]));
+            s.l("end");
+        }
+        "dup-lit-field" => {
+            s.l(&blob_decl("Rec", "", &(0..c.n).collect::<Vec<_>>(), &|j| ty(j).to_string()));
+            let mut lit = String::from("Rec { ");
+            for (q, &j) in c.slots.iter().enumerate() {
+                // a copy keeps the type of the field; with sub = 1 its value is written differently
+                let v = if c.sub == 1 && copies[q] > 0 { val(j + 4 * copies[q]) } else { val(j) };
+                lit.push_str(&format!("{}: {}, ", NAMES[j], v));
+            }
+            lit.push('}');
+            s.l("start :: fn do");
+            s.l(&format!("    r := {}", lit));
+            s.l("end");
+        }
+        _ => tool_error("unknown seed family"),
+    }
+    files.push(("main.sy".to_string(), s.s.clone()));
+    multi(files)
+}
+
+// ---- the context recorder --------------------------------------------------------------------------------------
+
+struct CtxOut {
+    trace: Vec<Value>,
+    groups: Vec<Value>,
+    fulls: Vec<Value>,
+}
+
+fn obs_into(rec: &mut Value, o: &Obs) {
+    rec["class"] = json!(o.class);
+    rec["digest"] = json!(o.digest);
+    rec["nerr"] = json!(o.nerr);
+    rec["d_first"] = json!(o.d_first);
+    rec["d_locs"] = json!(o.d_locs);
+    rec["d_set"] = json!(o.d_set);
+}
+
+fn parse_ids(arg: &str, max: usize) -> Vec<usize> {
+    if arg == "all" {
+        return (1..=max).collect();
+    }
+    arg.split(',')
+        .filter(|x| !x.is_empty())
+        .map(|x| {
+            let v: usize = x.parse().unwrap_or_else(|_| tool_error(&format!("bad id {:?}", x)));
+            if v < 1 || v > max {
+                tool_error(&format!("id {} out of range 1..{}", v, max));
+            }
+            v
+        })
+        .collect()
+}
+
+/// fresh run of every program of the library, each in its own process: reference digests (and full results)
+fn fresh_refs(scratch: &Path, ids: &[usize]) -> (BTreeMap<String, String>, BTreeMap<usize, StepOut>) {
+    let none = BTreeMap::new();
+    let outs = vharness::pool::par_map(ids, |_, &id| {
+        let mut o = run_seq(scratch, &format!("fresh-{}", id), &[id], &none);
+        (id, o.remove(0))
+    });
+    let mut refs = BTreeMap::new();
+    let mut full = BTreeMap::new();
+    for (id, o) in outs {
+        refs.insert(id.to_string(), o.obs.digest.clone());
+        full.insert(id, o);
+    }
+    (refs, full)
+}
+
+/// kind "hist": for every target t, the processes HistScenario(t, s) for the selected shapes s
+fn ctx_hist(scratch: &Path, shapes: &str, targets: &[usize]) -> CtxOut {
+    let nw = warm_ids().len();
+    let scens: Vec<usize> = if shapes == "all" { (1..=n_shapes()).collect() } else { (1..=2 + 2 * nw).collect() };
+    // phase 1: every program fresh (these ARE the shape-1 scenarios of the targets)
+    let all_ids: Vec<usize> = (1..=n_prog()).collect();
+    let (refs, fresh) = fresh_refs(scratch, &all_ids);
+    // phase 2: all other scenarios, one process each
+    let mut jobs: Vec<(usize, usize)> = Vec::new();
+    for &t in targets {
+        for &s in scens.iter().filter(|&&s| s != 1) {
+            jobs.push((t, s));
+        }
+    }
+    let results = vharness::pool::par_map(&jobs, |_, &(t, s)| {
+        let h = hist_scenario(t, s);
+        (t, s, run_seq(scratch, &format!("h-{}-{}", t, s), &h, &refs))
+    });
+    let mut by_ts: BTreeMap<(usize, usize), Vec<StepOut>> = BTreeMap::new();
+    for (t, s, o) in results {
+        by_ts.insert((t, s), o);
+    }
+    let mut out = CtxOut { trace: Vec::new(), groups: Vec::new(), fulls: Vec::new() };
+    for (gi, &t) in targets.iter().enumerate() {
+        let g = gi + 1;
+        let first = out.trace.len() + 1;
+        let mut j = 0;
+        for (si, &s) in scens.iter().enumerate() {
+            let h = hist_scenario(t, s);
+            let fresh_step;
+            let steps: Vec<&StepOut> = if s == 1 {
+                fresh_step = vec![fresh.get(&t).unwrap()];
+                fresh_step
+            } else {
+                by_ts.get(&(t, s)).unwrap().iter().collect()
+            };
+            for (q, o) in steps.iter().enumerate() {
+                j += 1;
+                let mut rec = json!({"g": g, "j": j, "si": si + 1, "scen": s, "step": q + 1, "prog": h[q],
+                                     "nostd": prog(h[q]).nostd, "before": h[..q].to_vec()});
+                obs_into(&mut rec, &o.obs);
+                out.trace.push(rec);
+                if let Some(f) = &o.full {
+                    if s != 1 {
+                        out.fulls.push(json!({"g": g, "j": j, "input": h[q], "full": f}));
+                    }
+                }
+            }
+        }
+        out.groups.push(json!({"g": g, "first": first, "n": j, "key": t, "scens": scens, "spec": format!("h:{}", t)}));
+    }
+    for (id, o) in fresh.iter() {
+        out.fulls.push(json!({"reference": true, "input": id, "full": o.full}));
+    }
+    out
+}
+
+/// kind "long": ONE thread of one process compiles LongInput(s, 1..len)
+fn ctx_long(scratch: &Path, len_std: usize, len_nostd: usize, scens: &[usize]) -> CtxOut {
+    let none = BTreeMap::new();
+    // references: the first occurrence of every program inside the history itself (shipped by the worker when
+    // no reference is given) - so give none and let the worker ship the first result and the first two that differ
+    let results = vharness::pool::par_map(scens, |_, &s| {
+        let pat = long_pattern(s);
+        let len = if s >= 4 { len_nostd } else { len_std };
+        let seq: Vec<usize> = (0..len).map(|q| pat[q % pat.len()]).collect();
+        // reference = what the first round of the pattern gives, taken from a short run of its own
+        let head: Vec<usize> = pat.clone();
+        let first = run_seq(scratch, &format!("lhead-{}", s), &head, &none);
+        let mut refs: BTreeMap<String, String> = BTreeMap::new();
+        let mut ref_full: BTreeMap<usize, Value> = BTreeMap::new();
+        for (q, o) in first.iter().enumerate() {
+            refs.entry(head[q].to_string()).or_insert_with(|| o.obs.digest.clone());
+            if let Some(f) = &o.full {
+                ref_full.entry(head[q]).or_insert_with(|| f.clone());
+            }
+        }
+        (s, seq.clone(), run_seq(scratch, &format!("l-{}", s), &seq, &refs), ref_full)
+    });
+    let mut out = CtxOut { trace: Vec::new(), groups: Vec::new(), fulls: Vec::new() };
+    for (gi, (s, seq, outs, ref_full)) in results.into_iter().enumerate() {
+        let g = gi + 1;
+        let first = out.trace.len() + 1;
+        for (q, o) in outs.iter().enumerate() {
+            let mut rec = json!({"g": g, "j": q + 1, "step": q + 1, "prog": seq[q], "nostd": s >= 4});
+            obs_into(&mut rec, &o.obs);
+            out.trace.push(rec);
+            if let Some(f) = &o.full {
+                out.fulls.push(json!({"g": g, "j": q + 1, "input": seq[q], "full": f}));
+            }
+        }
+        for (id, f) in ref_full {
+            out.fulls.push(json!({"reference": true, "g": g, "input": id, "full": f}));
+        }
+        out.groups.push(json!({"g": g, "first": first, "n": outs.len(), "key": s, "pattern": long_pattern(s),
+                               "spec": format!("l:{}", s)}));
+    }
+    out
+}
+
+/// kind "path": every project written to disk, compiled once per spelling, each in its own process and cwd
+fn ctx_path(scratch: &Path, projects: &[usize]) -> CtxOut {
+    let exe = std::env::current_exe().unwrap_or_else(|e| tool_error(&format!("current_exe: {}", e)));
+    let disk = scratch.join("disk");
+    let mut cases = Vec::new();
+    for &i in projects {
+        let c = disk_case(i);
+        let files = render_disk(&c);
+        let s_dir = disk.join(format!("d{:03}", i));
+        let p_dir = s_dir.join("proj");
+        for (rel, text) in files.iter() {
+            let path = p_dir.join(rel);
+            std::fs::create_dir_all(path.parent().unwrap()).unwrap_or_else(|e| tool_error(&format!("{}: {}", path.display(), e)));
+            std::fs::write(&path, text).unwrap_or_else(|e| tool_error(&format!("{}: {}", path.display(), e)));
+        }
+        std::fs::create_dir_all(p_dir.join("w")).unwrap();
+        cases.push((i, c, files, s_dir, p_dir));
+    }
+    let subst = |t: &str, s_dir: &Path, p_dir: &Path| t.replace("$P", &p_dir.to_string_lossy()).replace("$S", &s_dir.to_string_lossy());
+    let run = |q: usize, sp: usize, reference: &str| -> StepOut {
+        let (_, _, _, s_dir, p_dir) = &cases[q];
+        let (_, cwd, arg) = SPELLINGS[sp];
+        let o = std::process::Command::new(&exe)
+            .arg("diskworker")
+            .arg(subst(arg, s_dir, p_dir))
+            .arg(p_dir)
+            .arg(reference)
+            .current_dir(subst(cwd, s_dir, p_dir))
+            .env("VERIF_SEED", format!("{}", seed()))
+            .output()
+            .unwrap_or_else(|e| tool_error(&format!("cannot start a disk worker: {}", e)));
+        if !o.status.success() {
+            tool_error(&format!("disk worker exited with {:?}: {}", o.status.code(), String::from_utf8_lossy(&o.stderr)));
+        }
+        serde_json::from_str(String::from_utf8_lossy(&o.stdout).trim())
+            .unwrap_or_else(|e| tool_error(&format!("disk worker output: {}", e)))
+    };
+    // phase 1: the reference spelling; phase 2: the others (full results only where they differ)
+    let idx: Vec<usize> = (0..cases.len()).collect();
+    let refs = vharness::pool::par_map(&idx, |_, &q| run(q, 0, "-"));
+    let mut jobs: Vec<(usize, usize)> = Vec::new();
+    for q in 0..cases.len() {
+        for sp in 1..SPELLINGS.len() {
+            jobs.push((q, sp));
+        }
+    }
+    let rest = vharness::pool::par_map(&jobs, |_, &(q, sp)| run(q, sp, &refs[q].obs.digest));
+    let mut by: BTreeMap<(usize, usize), StepOut> = BTreeMap::new();
+    for ((q, sp), o) in jobs.iter().cloned().zip(rest.into_iter()) {
+        by.insert((q, sp), o);
+    }
+    let mut out = CtxOut { trace: Vec::new(), groups: Vec::new(), fulls: Vec::new() };
+    for (q, (i, c, files, _, _)) in cases.iter().enumerate() {
+        let g = q + 1;
+        let first = out.trace.len() + 1;
+        for sp in 0..SPELLINGS.len() {
+            let o = if sp == 0 { &refs[q] } else { by.get(&(q, sp)).unwrap() };
+            let (name, cwd, arg) = SPELLINGS[sp];
+            let mut rec = json!({"g": g, "j": sp + 1, "spelling": name, "cwd": cwd, "arg": arg});
+            obs_into(&mut rec, &o.obs);
+            out.trace.push(rec);
+            if let Some(f) = &o.full {
+                out.fulls.push(json!({"g": g, "j": sp + 1, "input": i, "full": f}));
+            }
+        }
+        out.groups.push(json!({"g": g, "first": first, "n": SPELLINGS.len(), "key": i, "case": c, "files": files,
+                               "spec": format!("d:{}", i)}));
+    }
+    let _ = std::fs::remove_dir_all(&disk);
+    out
+}
+
+/// kind "seed": every case compiled `nseeds` times without std, each time with hash keys no run had before
+fn ctx_seed(nseeds: usize, cases: &[usize]) -> CtxOut {
+    let projects: Vec<Project> = cases.iter().map(|&i| render_seed(&seed_case(i))).collect();
+    let mut rng = rand::rngs::StdRng::seed_from_u64(seed() ^ 0x5EED);
+    let mut schedule: Vec<(usize, usize)> = Vec::new();
+    for run in 1..=nseeds {
+        let mut order: Vec<usize> = (0..cases.len()).collect();
+        order.shuffle(&mut rng);
+        schedule.extend(order.into_iter().map(|q| (q, run)));
+    }
+    let opts = vharness::project::CompileOpts { no_std: true, ..Default::default() };
+    let results = vharness::pool::par_map(&schedule, |_, &(q, run)| {
+        let (r, _) = vharness::project::compile_opts(&projects[q], &opts);
+        let o = observe(&r);
+        // keep the full result of run 1 and of anything that is not an ordinary digest of it (decided below)
+        (q, run, o, r)
+    });
+    let mut obs: Vec<Vec<Option<Obs>>> = (0..cases.len()).map(|_| (0..nseeds).map(|_| None).collect()).collect();
+    let mut first: Vec<Option<CompileResult>> = (0..cases.len()).map(|_| None).collect();
+    let mut other: Vec<Vec<(usize, CompileResult)>> = (0..cases.len()).map(|_| Vec::new()).collect();
+    for (q, run, o, r) in results {
+        if run == 1 {
+            first[q] = Some(r);
+        } else {
+            other[q].push((run, r));
+        }
+        obs[q][run - 1] = Some(o);
+    }
+    let mut out = CtxOut { trace: Vec::new(), groups: Vec::new(), fulls: Vec::new() };
+    for (q, &i) in cases.iter().enumerate() {
+        let g = q + 1;
+        let first_idx = out.trace.len() + 1;
+        let d1 = obs[q][0].as_ref().unwrap().digest.clone();
+        let mut counts: BTreeMap<String, usize> = BTreeMap::new();
+        for run in 1..=nseeds {
+            let o = obs[q][run - 1].as_ref().unwrap();
+            *counts.entry(o.digest.clone()).or_insert(0) += 1;
+            let mut rec = json!({"g": g, "j": run, "run": run});
+            obs_into(&mut rec, o);
+            out.trace.push(rec);
+        }
+        out.fulls.push(json!({"g": g, "j": 1, "input": i, "full": full_result(first[q].as_ref().unwrap())}));
+        other[q].sort_by_key(|x| x.0);
+        if let Some((run, r)) = other[q].iter().find(|(run, _)| obs[q][run - 1].as_ref().unwrap().digest != d1) {
+            out.fulls.push(json!({"g": g, "j": run, "input": i, "full": full_result(r)}));
+        }
+        out.groups.push(json!({"g": g, "first": first_idx, "n": nseeds, "key": i, "case": seed_case(i),
+                               "files": projects[q].files, "digest_counts": counts, "spec": format!("s:{}", i)}));
+    }
+    out
+}
+
+fn ctx_main(args: &[String]) {
+    // c16 ctx <kind> <outdir> <params..>
+    let usage = "usage: c16 ctx hist <outdir> <all|required> <targets: all|ids> | ctx long <outdir> <len std> <len no-std> <all|ids> | \
+                 ctx path <outdir> <all|ids> | ctx seed <outdir> <nseeds> <count|all|ids:..>";
+    if args.len() < 2 {
+        tool_error(usage);
+    }
+    let kind = args[0].as_str();
+    let outdir = std::path::PathBuf::from(&args[1]);
+    let _ = std::fs::create_dir_all(&outdir);
+    let outdir = std::fs::canonicalize(&outdir).unwrap_or_else(|e| tool_error(&format!("{}: {}", outdir.display(), e)));
+    let scratch = outdir.join(format!("c16-scratch-{}", kind));
+    let _ = std::fs::remove_dir_all(&scratch);
+    std::fs::create_dir_all(&scratch).unwrap_or_else(|e| tool_error(&format!("{}: {}", scratch.display(), e)));
+    let mut out = match (kind, args.len()) {
+        ("hist", 4) => ctx_hist(&scratch, &args[2], &parse_ids(&args[3], n_prog())),
+        ("long", 5) => {
+            let a: usize = args[2].parse().unwrap_or_else(|_| tool_error(usage));
+            let b: usize = args[3].parse().unwrap_or_else(|_| tool_error(usage));
+            ctx_long(&scratch, a, b, &parse_ids(&args[4], N_LONG))
+        }
+        ("path", 3) => ctx_path(&scratch, &parse_ids(&args[2], N_DISK)),
+        ("seed", 4) => {
+            let nseeds: usize = args[2].parse().unwrap_or_else(|_| tool_error(usage));
+            let total = n_seed_cases();
+            let cases: Vec<usize> = if let Some(ids) = args[3].strip_prefix("ids:") {
+                parse_ids(ids, total)
+            } else if args[3] == "all" {
+                (1..=total).collect()
+            } else {
+                // stratified: the same number of cases from every family
+                let count: usize = args[3].parse().unwrap_or_else(|_| tool_error(usage));
+                let per = (count + SEED_FAMS.len() - 1) / SEED_FAMS.len();
+                let mut rng = rand::rngs::StdRng::seed_from_u64(seed() ^ 0x5EED5);
+                let mut idx = Vec::new();
+                for f in 0..SEED_FAMS.len() {
+                    let mut rest: Vec<usize> = (0..total / SEED_FAMS.len()).collect();
+                    rest.shuffle(&mut rng);
+                    idx.extend(rest.into_iter().take(per).map(|r| r * SEED_FAMS.len() + f + 1));
+                }
+                idx.sort();
+                idx
+            };
+            ctx_seed(nseeds, &cases)
+        }
+        _ => tool_error(usage),
+    };
+    // negative control: a recorder that lies about the last run of every third group
+    let stub = std::env::var("C16_STUB").ok();
+    let mut salted: Vec<usize> = Vec::new();
+    if stub.as_deref() == Some("salt") {
+        for gr in out.groups.iter() {
+            let g = gr["g"].as_u64().unwrap() as usize;
+            if g % 3 == 2 || out.groups.len() < 3 {
+                let last = gr["first"].as_u64().unwrap() as usize + gr["n"].as_u64().unwrap() as usize - 2;
+                let d = out.trace[last]["digest"].as_str().unwrap().to_string();
+                out.trace[last]["digest"] = json!(hex(fnv(&format!("salt{}", d))));
+                salted.push(g);
+            }
+        }
+    }
+    for gr in out.groups.iter_mut() {
+        let g = gr["g"].as_u64().unwrap() as usize;
+        gr["salted"] = json!(salted.contains(&g));
+    }
+    let progs: Vec<Value> = (1..=n_prog())
+        .map(|i| {
+            let p = prog(i);
+            let mut v = serde_json::to_value(&p).unwrap();
+            v["source_files"] = json!(render_prog(&p).files);
+            v
+        })
+        .collect();
+    write_ndjson(&outdir.join(format!("{}.ndjson", kind)), &out.trace);
+    write_ndjson(&outdir.join(format!("{}-groups.ndjson", kind)), &out.groups);
+    write_ndjson(&outdir.join(format!("{}-full.ndjson", kind)), &out.fulls);
+    write_ndjson(&outdir.join("progs.ndjson"), &progs);
+    let _ = std::fs::remove_dir_all(&scratch);
+    println!("{} {}", out.groups.len(), out.trace.len());
+}
+
+fn show_ctx(what: &str, id: usize) {
+    let (files, nostd): (BTreeMap<String, String>, bool) = match what {
+        "prog" => {
+            let p = prog(id);
+            println!("// {}", serde_json::to_string(&p).unwrap());
+            (render_prog(&p).files, p.nostd)
+        }
+        "seed" => {
+            let c = seed_case(id);
+            println!("// {}", serde_json::to_string(&c).unwrap());
+            (render_seed(&c).files, true)
+        }
+        "disk" => {
+            let c = disk_case(id);
+            println!("// {}", serde_json::to_string(&c).unwrap());
+            (render_disk(&c), false)
+        }
+        _ => tool_error("showctx prog|seed|disk <id>"),
+    };
+    for (p, s) in files.iter() {
+        println!("// ---- {}\n{}", p, s);
+    }
+    let project = Project { files, main: "main.sy".into() };
+    let (r, _) = vharness::project::compile_opts(&project, &vharness::project::CompileOpts { no_std: nostd, ..Default::default() });
+    let o = observe(&r);
+    println!("// class={} digest={} nerr={}", o.class, o.digest, o.nerr);
+    if let CompileResult::Err { errors, .. } = &r {
+        for e in errors {
+            println!("//   {} {}:{}:{}-{} {}", e.kind, e.file, e.line, e.col_start, e.col_end, e.message.replace('\n', " / "));
+        }
+    }
+    if let CompileResult::Panic { message, .. } = &r {
+        println!("//   panic {}", message);
+    }
+}
+
 fn main() {
     let args: Vec<String> = std::env::args().collect();
     let usage = "usage: c16 record universe <count|all> <trace> <inputs> | record corpus <dir> <trace> <inputs> | \
@@ -1048,6 +2215,19 @@ fn main() {
     }
     match args[1].as_str() {
         "size" => println!("{}", universe_size()),
+        "sizes" => println!(
+            "{}",
+            json!({"universe": universe_size(), "progs": n_prog(), "warm": warm_ids().len(), "shapes": n_shapes(),
+                   "long": N_LONG, "disk": N_DISK, "spellings": SPELLINGS.len(), "seed_cases": n_seed_cases()})
+        ),
+        "diskshow" if args.len() >= 3 => {
+            let r = disk_compile(&args[2], args.len() > 3);
+            println!("{}", serde_json::to_string_pretty(&full_result(&r)).unwrap());
+        }
+        "diskworker" if args.len() == 5 => diskworker(&args[2], &args[3], &args[4]),
+        "seqworker" if args.len() == 4 => seqworker(&args[2], &args[3]),
+        "showctx" if args.len() == 4 => show_ctx(&args[2], args[3].parse().unwrap_or_else(|_| tool_error("bad id"))),
+        "ctx" => ctx_main(&args[2..]),
         "show" if args.len() == 3 => show(&args[2]),
         "worker" if args.len() == 4 => worker(&args[2], &args[3]),
         "record" if args.len() == 6 => {
